@@ -59,6 +59,8 @@ class Spec:
     opaque_calls: tuple = ()          # dotted names whose result is an uninterpreted value
     assume_true: tuple = ()           # source text of tests assumed true (typing tests), e.g. isinstance(...)
     truthy_numeric: bool = False
+    track_div: bool = False           # record every evaluated `/`, `//`, `%` as an effect ("div", {"divisor": e, "op": op}, [])
+    masked_updates: bool = False      # record `self.x[mask] op= v` as an effect ("masked-aug:x", {"mask","op","value"}, [])
 
 
 def load_methods(path: Path, classname: str | None = None) -> dict:
@@ -87,6 +89,7 @@ class Exec:
     def __init__(self, spec: Spec):
         self.spec = spec
         self.used: set[str] = set()
+        self._eff: list = []          # effects of the path being executed (for track_div)
 
     # -- paths like self.algo_parameters["annealing"]["n_iter"]  ->  annealing_n_iter
     def path(self, node) -> str | None:
@@ -100,6 +103,14 @@ class Exec:
             if isinstance(key, ast.Constant) and isinstance(key.value, str):
                 return (base + "_" if base else "") + key.value
             return None
+        if (isinstance(node, ast.Call) and isinstance(node.func, ast.Attribute) and node.func.attr == "get"
+                and 1 <= len(node.args) <= 2 and not node.keywords
+                and isinstance(node.args[0], ast.Constant) and isinstance(node.args[0].value, str)):
+            # d.get("key", default) on a parameter path: same name as d["key"] (the key is a declared input or `fixed`)
+            base = self.path(node.func.value)
+            if base is None:
+                return None
+            return (base + "_" if base else "") + node.args[0].value
         return None
 
     def var(self, name):
@@ -134,7 +145,10 @@ class Exec:
             ops = {ast.Add: "+", ast.Sub: "-", ast.Mult: "*", ast.Div: "/", ast.FloorDiv: "//", ast.Mod: "%", ast.Pow: "**"}
             if type(node.op) not in ops:
                 raise Untranslatable(f"operator {type(node.op).__name__}")
-            return ("bin", ops[type(node.op)], E(node.left), E(node.right))
+            l, r = E(node.left), E(node.right)
+            if self.spec.track_div and ops[type(node.op)] in ("/", "//", "%"):
+                self._eff.append(("div", {"divisor": r, "op": const(ops[type(node.op)])}, []))
+            return ("bin", ops[type(node.op)], l, r)
         if isinstance(node, ast.UnaryOp):
             if isinstance(node.op, ast.USub):
                 return ("neg", E(node.operand))
@@ -167,7 +181,12 @@ class Exec:
                 left = right
             return out
         if isinstance(node, ast.BoolOp):
-            vals = [self.truth(v, env, state) for v in node.values]
+            vals = []
+            for j, v in enumerate(node.values):
+                n_eff = len(self._eff)
+                vals.append(self.truth(v, env, state))
+                if j and len(self._eff) != n_eff:
+                    raise Untranslatable("division evaluated under a short-circuit operator: " + ast.unparse(node))
             k = "and" if isinstance(node.op, ast.And) else "or"
             out = vals[0]
             for v in vals[1:]:
@@ -179,7 +198,12 @@ class Exec:
                     out = (k, out, v)
             return out
         if isinstance(node, ast.IfExp):
-            return ("ite", self.truth(node.test, env, state), E(node.body), E(node.orelse))
+            c = self.truth(node.test, env, state)
+            n_eff = len(self._eff)
+            a, b = E(node.body), E(node.orelse)
+            if len(self._eff) != n_eff:
+                raise Untranslatable("division evaluated inside a conditional expression: " + ast.unparse(node))
+            return ("ite", c, a, b)
         if isinstance(node, ast.Call):
             return self.call(node, env, state)
         if isinstance(node, ast.DictComp):
@@ -198,6 +222,13 @@ class Exec:
             env2[vname] = ("elem", src)
             env2["__key__"] = kname
             return ("pointwise", self.expr(node.value, env2, state))
+        if (isinstance(node, ast.Subscript) and isinstance(node.value, ast.Name) and isinstance(node.slice, ast.Constant)
+                and isinstance(node.slice.value, int) and isinstance(env.get(node.value.id), tuple)
+                and env[node.value.id][:1] == ("tuple",)):
+            elems = env[node.value.id][1]
+            if not 0 <= node.slice.value < len(elems):
+                raise Untranslatable("tuple index out of range: " + ast.unparse(node))
+            return elems[node.slice.value]
         if isinstance(node, ast.Subscript):
             # d[k] inside a pointwise comprehension
             if isinstance(node.slice, ast.Name) and env.get("__key__") == node.slice.id:
@@ -238,7 +269,11 @@ class Exec:
         if name in self.spec.opaque_calls:
             return ("opaque", name)
         if name and name.startswith("self.") and name[5:] in self.spec.methods and not node.args and not node.keywords:
+            saved = self._eff
             tree = self.run(self.spec.methods[name[5:]].body, {}, state)
+            self._eff = saved
+            if self.spec.track_div and _has_div(tree):
+                raise Untranslatable("division inside an inlined method: " + name)
             return self.tree_value(tree)
         raise Untranslatable("call " + ast.unparse(node))
 
@@ -255,6 +290,7 @@ class Exec:
         env = dict(env)
         state = dict(state)
         for i, st in enumerate(stmts):
+            self._eff = effects
             if isinstance(st, ast.Expr) and isinstance(st.value, ast.Constant):
                 continue  # docstring
             if isinstance(st, ast.Pass):
@@ -283,6 +319,13 @@ class Exec:
                 ops = {ast.Add: "+", ast.Sub: "-", ast.Mult: "*", ast.Div: "/", ast.Pow: "**", ast.FloorDiv: "//", ast.Mod: "%"}
                 if type(st.op) not in ops:
                     raise Untranslatable("augmented operator")
+                if (self.spec.masked_updates and isinstance(st.target, ast.Subscript) and self.path(st.target.value)
+                        and isinstance(st.target.slice, ast.Name) and st.target.slice.id in env):
+                    # self.x[mask] op= value  (element-wise update of the selected entries)
+                    effects.append(("masked-aug:" + self.path(st.target.value),
+                                    {"mask": env[st.target.slice.id], "op": const(ops[type(st.op)]),
+                                     "value": self.expr(st.value, env, state)}, []))
+                    continue
                 cur = self.expr(st.target, env, state)
                 self.assign(st.target, ("bin", ops[type(st.op)], cur, self.expr(st.value, env, state)), env, state)
                 continue
@@ -299,6 +342,12 @@ class Exec:
         return Leaf("fall", None, state, effects)
 
     def assign(self, target, v, env, state):
+        if isinstance(target, ast.Tuple):
+            if not (isinstance(v, tuple) and v[:1] == ("tuple",) and len(v[1]) == len(target.elts)):
+                raise Untranslatable("tuple assignment of " + ast.unparse(target))
+            for t, x in zip(target.elts, v[1]):
+                self.assign(t, x, env, state)
+            return
         if isinstance(target, ast.Name):
             env[target.id] = v
             return
@@ -307,6 +356,12 @@ class Exec:
             state[p] = v
             return
         raise Untranslatable("assignment target " + ast.unparse(target))
+
+
+def _has_div(tree) -> bool:
+    if isinstance(tree, Leaf):
+        return any(e[0] == "div" for e in tree.effects)
+    return _has_div(tree.then) or _has_div(tree.other)
 
 
 # ----------------------------------------------------------------------------- emission
